@@ -21,4 +21,4 @@ def run(ctx):
         "the registry is replaced by a recording transport under a real connect client; everything above it (BUF_TOKEN parsing, .netrc file and provider, interceptor provider, connectclient.Make, bufcli.NewConnectClientConfig) is the real code",
         "a well-formed token that the code rejects is not an alarm (the property is about leaks and partial application)",
     ]
-    return vlib.finish(ctx, rule="every BUF_TOKEN symbol string up to the bound (parse result and per-host token computed by Auth.tla) x .netrc configurations (rotating, all 9 for every 40th string) x 5 request hosts incl. suffix/prefix look-alikes, asked in rotating orders on one configuration; plus concurrent client construction for two registries; distinct = token strings")
+    return vlib.finish(ctx, rule="every BUF_TOKEN symbol string up to the bound (parse result and per-host token computed by Auth.tla) x .netrc configurations (rotating, all 9 for every 40th string) x 7 request hosts incl. suffix/prefix look-alikes and two that differ from a configured host only by the port, asked in rotating orders on one configuration; plus concurrent client construction for two registries; distinct = token strings")
